@@ -83,8 +83,10 @@ fn main() {
                         if let Ok(p) = &r {
                             assert_eq!(p.vartime_compress().0, e, "INVARIANT decode_roundtrip");
                         }
+                        // 8, 10, 12 and 14 are all valid encodings (reference model)
+                        assert!(r.is_ok(), "INVARIANT small_valid_encoding_decodes");
                         if e[0] == 8 {
-                            assert!(r.is_ok(), "INVARIANT basepoint_decodes");
+                            assert!(r.as_ref().ok() == Some(&decaf377::Element::GENERATOR), "INVARIANT basepoint_decodes_to_generator");
                         }
                         out.push(format!("t{} decode {} {}", t, e[0], r.is_ok()));
                     }
@@ -121,8 +123,77 @@ fn main() {
         }
     }
     assert_eq!(lines, again, "INVARIANT concurrent_differs_from_sequential");
+    conversions_smoke(wseed);
     for l in &lines {
         println!("{}", l);
     }
     println!("ok {} results", lines.len());
+}
+
+/// Single-threaded pass over the byte / limb / text conversions and the wire forms, after the race: the
+/// cross-target configurations (32-bit usize, big-endian) are the only place where assumptions about limb
+/// width and byte order in these paths can show. Every expectation is computed from plain integers.
+fn conversions_smoke(wseed: u64) {
+    use ark_ff::{BigInteger, PrimeField};
+    use ark_serialize::{CanonicalDeserialize, CanonicalSerialize};
+    use decaf377::{Element, Fp, Fr};
+    let mut s = wseed ^ 0x5eed;
+    let a = splitmix(&mut s) | 0x0100_0000_0000_0001; // distinct low and high bytes
+    let b = splitmix(&mut s);
+    macro_rules! field_checks {
+        ($t:ty, $n:expr) => {{
+            let x = <$t>::from(a);
+            let mut le = [0u8; $n];
+            le[..8].copy_from_slice(&a.to_le_bytes());
+            assert!(x.to_bytes_le() == le, "INVARIANT conv_to_bytes_le");
+            assert!(<$t>::from_le_bytes_mod_order(&le) == x, "INVARIANT conv_from_le_bytes");
+            assert!(<$t>::from_bytes_checked(&le).ok() == Some(x), "INVARIANT conv_from_bytes_checked");
+            let mut be = le;
+            be.reverse();
+            assert!(<$t as PrimeField>::from_be_bytes_mod_order(&be) == x, "INVARIANT conv_from_be_bytes");
+            let big = x.into_bigint();
+            assert!(big.0[0] == a && big.0[1..].iter().all(|l| *l == 0), "INVARIANT conv_into_bigint_limbs");
+            assert!(big.to_bytes_le()[..8] == a.to_le_bytes(), "INVARIANT conv_bigint_bytes");
+            assert!(<$t>::from_bigint(big) == Some(x), "INVARIANT conv_from_bigint");
+            assert!(x.to_string() == a.to_string(), "INVARIANT conv_display");
+            assert!(a.to_string().parse::<$t>().ok() == Some(x), "INVARIANT conv_from_str");
+            let n: num_bigint::BigUint = x.into();
+            assert!(n == num_bigint::BigUint::from(a), "INVARIANT conv_into_biguint");
+            assert!(<$t>::from(num_bigint::BigUint::from(a)) == x, "INVARIANT conv_from_biguint");
+            // order is integer order (1 < 256 < 2^56 + 1)
+            assert!(<$t>::from(1u64) < <$t>::from(256u64) && <$t>::from(256u64) < <$t>::from((1u64 << 56) + 1), "INVARIANT conv_order");
+            let mut w = Vec::new();
+            x.serialize_compressed(&mut w).expect("INVARIANT conv_serialize");
+            assert!(w == le.to_vec(), "INVARIANT conv_wire_bytes");
+            assert!(<$t>::deserialize_compressed(&w[..]).ok() == Some(x), "INVARIANT conv_wire_read");
+            // two-limb value: a + b * 2^64
+            let y = x + <$t>::from(b) * <$t>::from(u64::MAX) + <$t>::from(b);
+            let yb = y.into_bigint();
+            assert!(yb.0[0] == a && yb.0[1] == b, "INVARIANT conv_second_limb");
+            let mut le2 = [0u8; $n];
+            le2[..8].copy_from_slice(&a.to_le_bytes());
+            le2[8..16].copy_from_slice(&b.to_le_bytes());
+            assert!(y.to_bytes_le() == le2, "INVARIANT conv_second_limb_bytes");
+            let mut w2 = Vec::new();
+            y.serialize_compressed(&mut w2).expect("INVARIANT conv_serialize");
+            assert!(<$t>::deserialize_compressed(&w2[..]).ok() == Some(y), "INVARIANT conv_wire_read_two_limbs");
+        }};
+    }
+    field_checks!(Fq, 32);
+    field_checks!(Fr, 32);
+    field_checks!(Fp, 48);
+    // element wire forms: generator = decode(8); its compressed stream form is the 32 bytes 08 00 .. 00
+    let g = Element::GENERATOR;
+    let mut w = Vec::new();
+    g.serialize_compressed(&mut w).expect("INVARIANT elem_serialize");
+    let mut e8 = [0u8; 32];
+    e8[0] = 8;
+    assert!(w == e8.to_vec(), "INVARIANT elem_wire_bytes");
+    assert!(Element::deserialize_compressed(&w[..]).ok() == Some(g), "INVARIANT elem_wire_read");
+    assert!(g.vartime_compress_to_field() == Fq::from(8u64), "INVARIANT elem_compress_to_field");
+    let two_g = g + g;
+    let enc = two_g.vartime_compress();
+    assert!(enc.vartime_decompress().ok() == Some(two_g), "INVARIANT elem_roundtrip_2g");
+    assert!((g * Fr::from(2u64)).vartime_compress() == enc, "INVARIANT elem_scalar_mul_2");
+    println!("ok conversions");
 }
